@@ -155,12 +155,20 @@ def gen_scenario(rng, kind=None):
         elif which == "abs":
             base = val / Fr(2) ** rng.randint(0, 6)
             o["atol"].append([fname, str_of(base), True])
+    # a per-field tolerance of exactly zero must override a non-zero global one
+    if tol_hints and rng.random() < 0.3:
+        fname, which, val = rng.choice(tol_hints)
+        key = "rtol" if which == "rel" else "atol"
+        if not (small and val * 4 > Fr(1, 1024)):
+            o[key].append([None, str_of(val * 4), False])
+            o[key].append([fname, rng.choice(["0", "0.0"]), False])
     if rng.random() < 0.15:
         o["rtol"].append([None, str_of(Fr(1, 2 ** rng.randint(10, 30))), False])
     if rng.random() < 0.1 and not small:
         o["atol"].append([None, str_of(Fr(2) ** 20), False])           # huge global tolerance: ints/strings must stay exact
-    rng.shuffle(o["rtol"])
-    rng.shuffle(o["atol"])
+    if rng.random() < 0.7:
+        rng.shuffle(o["rtol"])
+        rng.shuffle(o["atol"])
     if rng.random() < 0.3:
         o["include"] = [b for b in bases if rng.random() < 0.7] or [bases[0]] if bases else None
     if rng.random() < 0.25:
